@@ -4,6 +4,8 @@ import vlib
 from vlib import assign_ids, Infra
 
 ALL_TYPES = list(range(1, 16))
+TYPE_NAMES = ["Undefined", "Connect", "ConnAck", "Publish", "PubAck", "PubRec", "PubRel", "PubComp", "Subscribe", "SubAck", "Unsubscribe",
+              "UnsubAck", "PingReq", "PingResp", "Disconnect", "Auth"]
 TYPE_PARTS = [[t] for t in ALL_TYPES]
 ONE_PART = [ALL_TYPES]
 LEVEL_MC = "model_checking"
@@ -275,6 +277,13 @@ def random_mutants(run, corpus, n):
         else:                       # another type nibble on the same body
             if f:
                 f[0] = (rng.randrange(16) << 4) | (f[0] & 15)
+        if i % 4 == 3 and len(f) >= 2 and f[1] < 128:      # the body given directly to UnmarshalBinary of the frame's type or another
+            tname = TYPE_NAMES[(f[0] >> 4) if rng.random() < 0.7 else rng.randrange(16)]
+            progs.append({"fam": "random", "meta": {"kind": "rand-direct", "mut": k},
+                          "steps": [{"op": "Buf", "buf": 1, "bytes": f[2:]}, {"op": "Unmarshal", "h": 1, "type": tname, "buf": 1,
+                                                                               "key": "new" if rng.random() < 0.5 else ""},
+                                    {"op": "Diag", "h": 1}, {"op": "Scribble", "buf": 1}, {"op": "Diag", "h": 1}]})
+            continue
         progs.append({"fam": "random", "meta": {"kind": "rand", "mut": k},
                       "steps": [{"op": "Stream", "stream": 1, "bytes": f}, {"op": "ReadPacket", "h": 1, "stream": 1},
                                 {"op": "Diag", "h": 1}, {"op": "ReadPacket", "h": 2, "stream": 1}]})
@@ -368,18 +377,22 @@ def c05(run):
                  randoms=20000 if run.tier == "quick" else 400000, std_readers=10)
 
 
-def stream_count_proof(run):
-    """Apalache discharges the inductive invariant of StreamIOCount (all header/remaining lengths and chunkings)."""
+def count_proof(run, module, what):
+    """Apalache discharges the inductive invariant of an integer abstraction (all lengths, limits and chunkings)."""
     import subprocess
     obl = [("Init", "IndInv", 0), ("IndInv", "IndInv", 1), ("IndInv", "Safe", 0)]
     for init, inv, length in obl:
         pr = subprocess.run(["apalache-mc", "check", "--init=" + init, "--inv=" + inv, "--length=%d" % length,
-                             "--out-dir=" + os.path.join(run.dir, "apalache-out"), os.path.join(run.specdir, "StreamIOCount.tla")],
+                             "--out-dir=" + os.path.join(run.dir, "apalache-out"), os.path.join(run.specdir, module + ".tla")],
                             capture_output=True, text=True, timeout=1800, cwd=run.dir)
         if "EXITCODE: OK" not in pr.stdout:
-            raise Infra("Apalache obligation %s => %s failed:\n%s" % (init, inv, pr.stdout[-1500:]))
+            raise Infra("Apalache obligation %s => %s of %s failed:\n%s" % (init, inv, module, pr.stdout[-1500:]))
     return {"apalache_obligations": len(obl), "apalache_discharged": len(obl),
-            "apalache_what": "StreamIOCount: Init => IndInv, IndInv /\\ Next => IndInv', IndInv => Safe (unbounded lengths and chunkings)"}
+            "apalache_what": "%s: Init => IndInv, IndInv /\\ Next => IndInv', IndInv => Safe (%s)" % (module, what)}
+
+
+def stream_count_proof(run):
+    return count_proof(run, "StreamIOCount", "unbounded lengths and chunkings")
 
 
 def c06(run):
@@ -428,7 +441,9 @@ def c10(run):
                  "or several Write calls x every writer that stops after K bytes; completed behaviours satisfy the predicate applied to "
                  "the recorded events)",
                  ["D7: writers obey io.Writer (an error whenever fewer bytes are accepted)"],
-                 histories=400 if run.tier == "quick" else 5000, models=[("MC_Write", MC_WRITE_CFG)], rich_writers=3)
+                 histories=400 if run.tier == "quick" else 5000, models=[("MC_Write", MC_WRITE_CFG)], rich_writers=3,
+                 extra_cov=(count_proof(run, "WriteIOCount", "every frame length, writer limit and splitting over Write calls")
+                            if run.tier == "thorough" else None))
 
 
 def c11(run):
